@@ -4,7 +4,7 @@
    firing order; ANY trigger list, ANY table, ANY statement of the three kinds). *)
 From Coq Require Import List ZArith Bool.
 Import ListNotations.
-From GMS Require Import Store.C23Trigger Store.C23TriggerProofs.
+From GMS Require Import Store.C23Trigger Store.C23TriggerProofs Store.C23Order Store.C23OrderProofs Store.C23Rich Store.C23RichProofs.
 Open Scope Z_scope.
 
 (* UPDATE: the audit rows of the statement, by tag, are exactly one block (BEFORE triggers in order, then AFTER triggers in
@@ -72,3 +72,97 @@ Example C23_nonvacuous :
   exec w_trigs [] (SIns [(1, 1); (2, 2)]) = ([(1, 11); (2, 12)], [(1, 1, 1); (2, 1, 11); (1, 2, 2); (2, 2, 12)], false).
 Proof. exact nonvacuous_example. Qed.
 Print Assumptions C23_nonvacuous.
+
+(* ---- plan.OrderTriggers as it is (Go slice semantics, Store/C23Order.v), ANY number of placement clauses ---- *)
+(* no clause among the triggers of the event: the code fires them as MySQL prescribes (creation order per time) *)
+Theorem C23_go_order_no_clause_agrees :
+  forall l, Forall no_clause l -> go_order l = Some (mysql_order l).
+Proof. exact go_order_no_clause. Qed.
+Print Assumptions C23_go_order_no_clause_agrees.
+
+(* exactly one clause (trigger x, created after a ++ y :: b, FOLLOWS / PRECEDES y of its own time; any triggers after
+   it): the code agrees with MySQL, whatever the list lengths (hence whatever the slice capacities) *)
+Theorem C23_go_order_one_clause_agrees :
+  forall a y cy b x c l2 g,
+    Forall no_clause (a ++ (y, cy) :: b) -> Forall no_clause l2 -> clause_ref c = Some g ->
+    (forall e, In e a -> t_tag (fst e) <> g) -> t_tag y = g -> is_before y = is_before x ->
+    go_order ((a ++ (y, cy) :: b) ++ (x, c) :: l2) = Some (mysql_order ((a ++ (y, cy) :: b) ++ (x, c) :: l2)).
+Proof. exact go_order_one_clause. Qed.
+Print Assumptions C23_go_order_one_clause_agrees.
+
+(* two clauses: AFTER tr1, AFTER tr2, AFTER tr3 PRECEDES tr1, BEFORE tr4, BEFORE tr5, BEFORE tr6 FOLLOWS tr4 fires the
+   BEFORE triggers 4,5,6 where MySQL prescribes 4,6,5 (the in-place append overwrote triggers[3..], tr6 is never visited) *)
+Theorem C23_go_order_second_clause_lost_refuted :
+  exists l, option_map (fun p => (map t_tag (fst p), map t_tag (snd p))) (go_order l) = Some ([4; 5; 6], [3; 1; 2]) /\ map t_tag (fst (mysql_order l)) = [4; 6; 5] /\ map t_tag (snd (mysql_order l)) = [3; 1; 2].
+Proof.
+  exists order_witness. split; [exact order_witness_go|].
+  split; [exact (f_equal fst order_witness_mysql)|exact (f_equal snd order_witness_mysql)].
+Qed.
+Print Assumptions C23_go_order_second_clause_lost_refuted.
+
+(* "exactly once" itself fails: BEFORE tr1, tr2 PRECEDES tr1, tr3 PRECEDES tr1, tr4, tr5 PRECEDES tr4 fires 2,3,1,3,5 -
+   tr3 twice and tr4 never, per affected row *)
+Theorem C23_go_order_fires_exactly_once_refuted :
+  exists l, option_map (fun p => map t_tag (fst p)) (go_order l) = Some [2; 3; 1; 3; 5] /\ map t_tag (fst (mysql_order l)) = [2; 3; 1; 5; 4].
+Proof. exists dup_witness. split; [exact dup_witness_go|exact dup_witness_mysql]. Qed.
+Print Assumptions C23_go_order_fires_exactly_once_refuted.
+
+(* ---- rich bodies (several statements, IF, conditional SIGNAL, nested INSERT into t2 with its own triggers), primary
+   key updates, failing statements (Store/C23Rich.v); ANY trigger lists, ANY nested-insert behaviour [child], both IF
+   semantics [blk] ---- *)
+(* a statement that succeeds writes exactly one block per affected row, in row order: the bodies of the BEFORE triggers
+   in firing order chained through NEW, then the bodies of the AFTER triggers on the stored row (at depth 2 the same
+   holds for every nested INSERT: [child2] is such a block); every row operation is done on NEW as the BEFORE triggers
+   left it ([stored_new]) *)
+Theorem C23_rich_fires_once_per_row_in_order :
+  forall child blk ts op rows cur cur' e,
+    proc (fun c p => row_step child blk ts op c (fst p) (snd p)) rows cur = (cur', e, Ok) ->
+    e = flat_map (fun p => row_effs child blk ts (fst p) (snd p)) rows /\ fold_left (fun c p => match c with
+                          | Some c => op (fst p) (stored_new child blk ts (fst p) (snd p)) c
+                          | None => None end) rows (Some cur) = Some cur'.
+Proof. exact proc_ok_blocks. Qed.
+Print Assumptions C23_rich_fires_once_per_row_in_order.
+
+(* the row operation of a row that went through gets NEW as the BEFORE triggers left it *)
+Theorem C23_rich_before_new_is_stored :
+  forall child blk ts op cur old new cur' e,
+    row_step child blk ts op cur old new = (cur', e, Ok) ->
+    e = row_effs child blk ts old new /\ op old (stored_new child blk ts old new) cur = Some cur'.
+Proof. exact row_step_ok. Qed.
+Print Assumptions C23_rich_before_new_is_stored.
+
+(* the engine's IF branch agrees with MySQL's sequential execution when no SET NEW stands before the end of the branch *)
+Theorem C23_rich_if_branch_agrees :
+  forall child l old new, set_only_last l = true -> run_block child l old new = run_seq child l old new.
+Proof. exact run_block_seq. Qed.
+Print Assumptions C23_rich_if_branch_agrees.
+
+(* otherwise not: IF NEW.v > 5 THEN SET NEW.v = 5; INSERT INTO audit VALUES (1, NEW.id, NEW.v); END IF stores (2,9) and logs
+   9 where MySQL stores (2,5) and logs 5 *)
+Theorem C23_rich_if_branch_set_lost_refuted :
+  exists s q, rexec s [] q = ([(2, 9)], [EA (1, 2, 9)], Ok) /\ rexec_spec s [] q = ([(2, 5)], [EA (1, 2, 5)], Ok).
+Proof. exists if_trigs, (RIns [(2, 9)]). split; [exact if_witness_engine|exact if_witness_mysql]. Qed.
+Print Assumptions C23_rich_if_branch_set_lost_refuted.
+
+(* a statement failing in a BEFORE trigger or in the row operation leaves the table as it was ... *)
+Theorem C23_rich_before_failure_restores_table :
+  forall blk s tb q tb' e, rexec_with blk s tb q = (tb', e, FailRestore) -> tb' = tb.
+Proof. exact rexec_restore. Qed.
+Print Assumptions C23_rich_before_failure_restores_table.
+
+(* ... but not one failing in an AFTER trigger: rows (1,3), (2,9) of INSERT INTO t VALUES (1,3),(2,9),(3,1) stay *)
+Theorem C23_rich_after_failure_keeps_rows_refuted :
+  exists s tb q tb' e, rexec s tb q = (tb', e, FailKeep) /\ tb' <> tb.
+Proof.
+  exists sig_trigs, [], (RIns [(1, 3); (2, 9); (3, 1)]), [(1, 3); (2, 9)], []. split; [exact after_fail_witness|discriminate].
+Qed.
+Print Assumptions C23_rich_after_failure_keeps_rows_refuted.
+
+(* depth 2: each level fires once per row, the nested block sits where the INSERT INTO t2 stands in the body *)
+Example C23_rich_chain_nonvacuous :
+  rexec chain_trigs [] (RIns [(1, 3); (2, 9)]) =
+    ([(1, 3); (2, 9)],
+     [EA (1, 1, 3); EA (11, 1, 3); EC (1, 4); EA (12, 1, 4); EA (2, 1, 3);
+      EA (1, 2, 9); EA (11, 2, 9); EC (2, 10); EA (12, 2, 10); EA (2, 2, 9)], Ok).
+Proof. exact chain_example. Qed.
+Print Assumptions C23_rich_chain_nonvacuous.
